@@ -201,14 +201,18 @@ EXPORT errno_t _wcsrtombs_s_chk(size_t *restrict retvalp, char *restrict dest,
         return RCNEGATE(ESOVRLP);
     }
 
-    l = *retvalp = wcsrtombs(dest, srcp, len, ps);
+    /* libc stores up to len bytes: never more than dmax */
+    l = *retvalp = wcsrtombs(dest, srcp, (dest && len > dmax) ? dmax : len, ps);
 
-    if (likely(l > 0 && l < dmax)) {
-#ifdef SAFECLIB_STR_NULL_SLACK
+    if (likely(l < dmax)) {
         if (dest) {
+#ifdef SAFECLIB_STR_NULL_SLACK
             memset(&dest[l], 0, dmax - l);
-        }
+#else
+            /* wcsrtombs only null-terminates when len is big enough */
+            dest[l] = '\0';
 #endif
+        }
         rc = EOK;
     } else {
         /* errno is usually EILSEQ */
